@@ -1,5 +1,5 @@
 # Native replay of solver models and differential (interpreter vs native) runs
-import os, subprocess, tempfile, json, signal
+import os, subprocess, tempfile, json, signal, shutil
 from fractions import Fraction
 from . import build
 
@@ -42,6 +42,7 @@ def run_native(exe, fns, inputs=None, seed=1, perturb=None, derivs=None, timeout
     env = dict(os.environ); env['VERIF_SEED'] = str(seed)
     env['ASAN_OPTIONS'] = 'detect_leaks=0:abort_on_error=0:exitcode=99'; env['UBSAN_OPTIONS'] = 'halt_on_error=1:exitcode=98:print_stacktrace=0'
     tmp = []
+    wd = tempfile.mkdtemp(prefix='verif_native_')     # files written by the harness (trajectory, state) land in a scratch directory
     try:
         ipath = '-'
         if inputs:
@@ -50,7 +51,7 @@ def run_native(exe, fns, inputs=None, seed=1, perturb=None, derivs=None, timeout
         if derivs:
             f = tempfile.NamedTemporaryFile('w', suffix='.der', delete=False); f.write(''.join('%s %r\n' % kv for kv in derivs.items())); f.close(); env['VERIF_DERIVS'] = f.name; tmp.append(f.name)
         try:
-            r = subprocess.run([exe, ipath] + list(fns), stdout=subprocess.PIPE, stderr=subprocess.PIPE, env=env, timeout=timeout)
+            r = subprocess.run([os.path.abspath(exe), ipath] + list(fns), stdout=subprocess.PIPE, stderr=subprocess.PIPE, env=env, timeout=timeout, cwd=wd)
             rc = r.returncode; out = r.stdout.decode(errors='replace'); err = r.stderr.decode(errors='replace')
         except subprocess.TimeoutExpired as ex:
             rc = -999; out = (ex.stdout or b'').decode(errors='replace'); err = 'TIMEOUT'
@@ -58,6 +59,7 @@ def run_native(exe, fns, inputs=None, seed=1, perturb=None, derivs=None, timeout
         for t in tmp:
             try: os.unlink(t)
             except OSError: pass
+        shutil.rmtree(wd, ignore_errors=True)
     res = {'rc': rc, 'asserts': {}, 'outs': {}, 'derivs': [], 'sites': [], 'reach': [], 'stderr': err[-1500:], 'crash': None, 'assume_false': 'ASSUME-FALSE' in out}
     for line in out.splitlines():
         p = line.split(' ')
